@@ -130,6 +130,7 @@ MANIFEST = {
     "bytes, text, decoded values, fields and blocks",
 }
 
+NEW_F45 = "op4-binary-dense-sparse-input-record-ge-2GiB-int32-wrap"
 KNOWN_F2 = "op4-binary-nonbigmat-string-ge-16384-rows"
 KNOWN_F3 = "op4-ascii-negative-3digit-exponent"
 FIXED_F24 = "op4-binary-skip-zero-column-matrix"  # found by this check, repaired in /repo (fix: commit 24d6cc5)
@@ -362,27 +363,81 @@ def _gen_matrix(rng, vstyle, max_rows=12, max_cols=6, allow_negzero=True):
     return {"kind": kind, "cplx": cplx, "D": D}
 
 
+def _exact_eighths(D):
+    """are all parts small multiples of 1/8 (so that sums of a few of them are exact in any order)?"""
+    v = np.ascontiguousarray(D)
+    v = v.view(np.float64) if np.iscomplexobj(v) else v
+    return bool(np.all(np.abs(v) < 2.0 ** 40) and np.all(v * 8 == np.round(v * 8)))
+
+
 def _as_input(rng, m):
-    """the object handed to op4.write"""
+    """the object handed to op4.write: for a sparse matrix any scipy format, stored triplets in any order, explicit
+    zeros, duplicates (only where the sum is exact in every order); for an ndarray any memory layout and, where the
+    values are representable, another dtype"""
     D = m["D"]
     if m["kind"] == "sparse":
-        fmt = rng.choice(["coo", "csr", "csc"])
-        if rng.random() < 0.2 and D.size:
-            # explicit stored zero: must be dropped by the writer (scipy.sparse.find)
-            i, j, v = sp.find(sp.coo_matrix(D))
-            zi, zj = np.nonzero(D == 0)
-            if len(zi):
-                q = rng.randrange(len(zi))
-                i = np.append(i, zi[q])
-                j = np.append(j, zj[q])
-                v = np.append(v, 0.0)
-            A = sp.coo_matrix((v, (i, j)), shape=D.shape)
-        else:
-            A = sp.coo_matrix(D)
-        return {"coo": A, "csr": A.tocsr(), "csc": A.tocsc()}[fmt]
-    if rng.random() < 0.3:
-        return np.asfortranarray(D)
-    return D.copy()
+        fmt = rng.choice(["coo", "csr", "csc", "bsr", "coo", "csr-raw", "csc-raw", "dia", "lil"])
+        i, j = np.nonzero(D)
+        v = D[i, j]
+        trip = [[int(a), int(b), c] for a, b, c in zip(i.tolist(), j.tolist(), v.tolist())]
+        if fmt in ("coo", "csr-raw", "csc-raw"):
+            if trip and _exact_eighths(D) and rng.random() < 0.4:
+                # duplicates: v = v1 + v2 (+ v3), exactly
+                out = []
+                for a, b, c in trip:
+                    if rng.random() < 0.5:
+                        h = np.round(c * 4) / 8 if not isinstance(c, complex) else complex(np.round(c.real * 4) / 8, np.round(c.imag * 4) / 8)
+                        parts = [h, c - h]
+                        if rng.random() < 0.3:
+                            parts = [h, 1.0, c - h - 1.0]
+                        out += [[a, b, x] for x in parts]
+                    else:
+                        out.append([a, b, c])
+                trip = out
+            if D.size and rng.random() < 0.3:
+                zi, zj = np.nonzero(D == 0)
+                if len(zi):
+                    q = rng.randrange(len(zi))
+                    trip.append([int(zi[q]), int(zj[q]), 0.0])   # explicit stored zero: dropped by the writer
+            rng.shuffle(trip)
+        I = np.array([t[0] for t in trip], dtype=np.int32)
+        J = np.array([t[1] for t in trip], dtype=np.int32)
+        V = np.array([t[2] for t in trip], dtype=D.dtype)
+        if fmt in ("csr-raw", "csc-raw"):
+            major, minor, n = (I, J, D.shape[0]) if fmt == "csr-raw" else (J, I, D.shape[1])
+            order = np.argsort(major, kind="stable")
+            indptr = np.concatenate(([0], np.cumsum(np.bincount(major, minlength=n)))).astype(np.int32)
+            cls = sp.csr_matrix if fmt == "csr-raw" else sp.csc_matrix
+            return cls((V[order], minor[order], indptr), shape=D.shape)   # unsorted indices, duplicates kept
+        A = sp.coo_matrix((V, (I, J)), shape=D.shape)
+        if fmt == "coo":
+            return A
+        return {"csr": A.tocsr, "csc": A.tocsc, "bsr": A.tobsr, "dia": A.todia, "lil": A.tolil}[fmt]()
+    X = D
+    if D.size and rng.random() < 0.3:
+        for dt in rng.sample(["float32", "int64", "int16", "complex64", ">f8", "<c16" if D.dtype.kind == "c" else "<f8"], 3):
+            dt = np.dtype(dt)
+            if dt.kind != "c" and np.iscomplexobj(D):
+                continue
+            with np.errstate(all="ignore"), warnings.catch_warnings():
+                warnings.simplefilter("ignore")
+                Y = D.astype(dt)
+                back = Y.astype(np.complex128 if (np.iscomplexobj(D) or dt.kind == "c") else np.float64)
+            if dt.kind == "c" and not np.iscomplexobj(D):
+                continue
+            if np.array_equal(np.ascontiguousarray(back).view(np.uint64), np.ascontiguousarray(D).view(np.uint64)):
+                X = Y
+                break
+    t = rng.random()
+    if t < 0.25:
+        return np.asfortranarray(X)
+    if t < 0.4 and X.size:
+        big = np.zeros((2 * X.shape[0] + 1, 3 * X.shape[1] + 2), X.dtype)
+        big[1::2, 2::3] = X
+        return big[1::2, 2::3]          # a strided view
+    if t < 0.5 and X.size:
+        return X[::-1, ::-1].copy()[::-1, ::-1]   # negative strides
+    return X.copy()
 
 
 def _logical(m):
@@ -431,6 +486,16 @@ def _write(op4, path, case, inputs, binary):
         warnings.simplefilter("ignore")
         forms = case["forms"]
         kw = {} if case.get("default_digits") else {"digits": case["digits"]}
+        import zlib
+        h = zlib.crc32(repr((len(case["names"]), case["digits"], case["opt"], binary, tuple(case["names"]))).encode()) % 7
+        if h == 0:
+            # a call to `write` replaces the file: whatever was there must not survive
+            op4.write(path, ["zz1", "zz2"], [np.ones((9, 7)), np.eye(5)], binary=binary)
+        if h in (1, 2) and len(set(case["names"])) == len(case["names"]):
+            # the mapping interface: insertion order, `(matrix, form)` values
+            d = {n: (x if f is None and h == 1 else (x, f)) for n, x, f in zip(case["names"], inputs, forms)}
+            op4.write(path, d, binary=binary, endian=case["endian"], sparse=case["opt"], **kw)
+            return
         op4.write(path, list(case["names"]), list(inputs), binary=binary,
                   endian=case["endian"], sparse=case["opt"], forms=None if all(f is None for f in forms) else list(forms), **kw)
 
@@ -1584,6 +1649,34 @@ def _family(case, binary, what):
     return "op4-%s-%s-%s-%s" % ("binary" if binary else "ascii", case["opt"], kinds, what)
 
 
+def _auto_sparse_expected(opt, kind, D):
+    """what `sparse=None` must return (documented: sparse iff written in a sparse format; a sparse-format file
+    of a matrix without rows / without non-zeros is byte-identical to the dense-format file)"""
+    lay = opt if opt != "auto" else ("bigmat" if kind == "sparse" else "dense")
+    if lay == "nonbigmat" and D.shape[0] >= 65536:
+        lay = "bigmat"
+    if lay == "dense":
+        return False
+    if lay == "bigmat":
+        return D.shape[0] > 0
+    return bool(np.any(D))
+
+
+def _coo_expected(opt, kind, D):
+    """the (row, col) pairs `sparse=True` must return, in file order: column by column, rows ascending; the sparse
+    formats hold exactly the non-zero elements, the dense format everything from the first to the last one"""
+    lay = opt if opt != "auto" else ("bigmat" if kind == "sparse" else "dense")
+    rows, cols = [], []
+    for c in range(D.shape[1]):
+        nz = np.nonzero(D[:, c])[0]
+        if len(nz) == 0:
+            continue
+        r = list(range(int(nz[0]), int(nz[-1]) + 1)) if lay == "dense" else nz.tolist()
+        rows += r
+        cols += [c] * len(r)
+    return rows, cols
+
+
 def _check_roundtrip(op4, sc, case, inputs, binary):
     """returns None or (what, observed, required)"""
     try:
@@ -1615,6 +1708,15 @@ def _check_roundtrip_(op4, sc, case, inputs, binary):
                 return ("read-type", "sparse=True returned %s" % type(X).__name__, "a scipy sparse matrix")
             if mode is False and sp.issparse(X):
                 return ("read-type", "sparse=False returned a sparse matrix", "ndarray")
+            if mode is None and sp.issparse(X) != _auto_sparse_expected(case["opt"], m["kind"], m["D"]):
+                return ("auto-sparse", "sparse=None returned %s" % type(X).__name__,
+                        "sparse" if _auto_sparse_expected(case["opt"], m["kind"], m["D"]) else "ndarray")
+            if mode is True and sp.issparse(X) and m["D"].shape[0] < 65536:
+                er, ec = _coo_expected(case["opt"], m["kind"], m["D"])
+                Xc = X.tocoo()
+                if Xc.row.tolist() != er or Xc.col.tolist() != ec:
+                    return ("coo-triplets", {"row": Xc.row.tolist()[:40], "col": Xc.col.tolist()[:40]},
+                            {"row": er[:40], "col": ec[:40]})
             A = X.toarray() if sp.issparse(X) else np.asarray(X)
             D = m["D"]
             if A.shape != D.shape:
@@ -1842,6 +1944,49 @@ def _shrink(op4, sc, case, binary, rng):
     return best
 
 
+def _oracle_f45(ctx, op4, sc):
+    try:
+        avail = int([ln for ln in open("/proc/meminfo") if ln.startswith("MemAvailable")][0].split()[1]) // 1024 ** 2
+        free_gb = shutil.disk_usage("/tmp").free // 1024 ** 3
+    except Exception:  # noqa: BLE001
+        avail, free_gb = 0, 0
+    if avail < 24 or free_gb < 8:
+        ctx.skip("F45 reproduction needs 24 GB of memory and 8 GB of scratch space")
+        return
+    n = 2 ** 28 - 1
+    A = sp.coo_matrix((np.array([1.0, 2.0]), ([0, n - 1], [0, 0])), shape=(n, 1))
+    p = sc.path()
+    ctx.count("oracle:f45-2GiB-record")
+    inp = {"input": "scipy.sparse.coo_matrix(([1.0, 2.0], ([0, 2**28 - 2], [0, 0])), shape=(2**28 - 1, 1))",
+           "call": "op4.write(f, ['a', 'z'], [A, numpy.eye(2)], sparse='dense'); op4.dir(f)"}
+    try:
+        with warnings.catch_warnings():
+            warnings.simplefilter("ignore")
+            op4.write(p, ["a", "z"], [A, np.eye(2)], sparse="dense")
+    except (struct.error, ValueError, OverflowError):
+        os.path.exists(p) and os.remove(p)
+        return  # a refused write is what the ndarray path does: fine
+    except MemoryError:
+        os.path.exists(p) and os.remove(p)
+        ctx.skip("F45 reproduction: MemoryError")
+        return
+    try:
+        reclen = struct.unpack("<i", open(p, "rb").read(36)[32:36])[0]
+        try:
+            names = op4.dir(p, verbose=False)[0]
+            ok = names == ["a", "z"]
+            obs = "dir -> %r" % (names,)
+        except Exception as e:  # noqa: BLE001
+            ok, obs = False, "dir raises %s: %s" % (type(e).__name__, e)
+        if reclen < 0 or not ok:
+            ctx.fail(NEW_F45, "binary dense-layout write of a scipy.sparse input whose column record is >= 2 GiB: the record "
+                     "length is computed in numpy int32 arithmetic and wraps", inp,
+                     "record marker %d; %s" % (reclen, obs), "struct.error like the ndarray path, or a readable file")
+            ctx.extra["unknown_failures"] = ctx.extra.get("unknown_failures", 0) + 1
+    finally:
+        os.path.exists(p) and os.remove(p)
+
+
 def _valid_names(rng, case):
     case["names"] = [_gen_name(rng, valid_only=True) for _ in case["names"]]
     if len(case["names"]) > 1 and rng.random() < 0.3:
@@ -1938,6 +2083,31 @@ def search(ctx, hints):
                              {"x": x.tolist(), "dtype": str(x.dtype)}, got.tolist(), np.atleast_2d(x).astype(float).tolist())
             except Exception as e:  # noqa: BLE001
                 ctx.fail("op4-binary-coerced-input", "write/read raises", {"x": x.tolist(), "dtype": str(x.dtype)}, repr(e), "round trip")
+        # an invalid `sparse` option is refused before the file is touched
+        for binary in (True, False):
+            p = sc.path()
+            op4.write(p, "a", np.eye(2), binary=binary)
+            before = open(p, "rb").read()
+            ctx.count("oracle:invalid-sparse-option")
+            try:
+                op4.write(p, "a", np.ones((3, 3)), binary=binary, sparse="sprase")
+                ctx.fail("op4-write-invalid-sparse-option", "an invalid `sparse` option is accepted", {"sparse": "sprase", "binary": binary},
+                         "no exception", "ValueError")
+            except ValueError:
+                if open(p, "rb").read() != before:
+                    ctx.fail("op4-write-invalid-sparse-option", "the refused call modified the file", {"sparse": "sprase", "binary": binary},
+                             "file changed", "file untouched")
+        # more than two dimensions
+        ctx.count("oracle:3d-input")
+        try:
+            op4.write(sc.path(), "a", np.ones((2, 2, 2)))
+            ctx.fail("op4-write-3d-input", "a 3-d array is accepted", {"shape": [2, 2, 2]}, "no exception", "ValueError")
+        except ValueError:
+            pass
+        # F45: a sparse input in the dense layout whose column record reaches 2 GiB (needs ~9 GB of memory and a
+        # 2 GiB scratch file: thorough tier only, and only when the machine has the room)
+        if ctx.thorough:
+            _oracle_f45(ctx, op4, sc)
         # ASCII variant files (reader only)
         for _ in range(ctx.pick(300, 2500)):
             _oracle_variant(ctx, op4, sc, _gen_vcase(rng))
